@@ -221,7 +221,9 @@ class GridSpec:
         bbox = geopolygon.boundingbox
 
         for tile_index, tile_geobox in self.tiles(bbox, geobox_cache):
-            if not geopolygon.disjoint(tile_geobox.extent):
+            extent = tile_geobox.extent
+            # overlapping means sharing more than boundary points
+            if not geopolygon.disjoint(extent) and not geopolygon.touches(extent):
                 yield (tile_index, tile_geobox)
 
     def __str__(self) -> str:
